@@ -20,8 +20,19 @@ class Captured:
         self.kwargs = None
         self.optimizer = None
 
+    #: overwrite, after every evaluation, the array the library returned and the vector it was given (both belong to the caller:
+    #: if the library kept a view of either, or handed out a view of its own state, later evaluations show it)
+    poison = False
+
     def __call__(self, x):
-        return np.array(self.fun(np.asarray(x, dtype=float)), dtype=float, copy=True)
+        xin = np.array(x, dtype=float, copy=True)
+        out = self.fun(xin)
+        res = np.array(out, dtype=float, copy=True)
+        if self.poison:
+            if isinstance(out, np.ndarray) and out.flags.writeable:
+                out[...] = np.nan
+            xin[...] = np.nan
+        return res
 
 
 def open_objective(scheme, verbose=False):
